@@ -19,8 +19,9 @@ PROPS = {
               "boundary lengths for the larger sizes, the same with early negotiation (Block2 in the first request), bodies of 5000 and 20000 bytes, and 500 (thorough 20000) random transfers over body lengths, budgets 60..1280, client preference none / szx 0..6, mid-transfer size reduction, token length 0..8, four application option sets; "
               "verdict from the responses alone: payloads concatenate to the body, non-final blocks are full with the more flag, numbers match offsets, every block repeats the application's options, the application ran exactly once, follow-ups were answered by the handler, the cache entry is gone after the final block; class 1 empty body / 2 unfragmented / 3 fragmented / 4 fragmented with early negotiation; distinct = distinct input"),
         level_text=("Theorems: C08_block_served (for every body incl. the empty one, block number and size: the served payload is bytes [num*size, num*size+size) of the cached body, the more flag is set iff bytes remain, on a copy of the application's version/type/code/options), "
-                    "C08_chunks_reassemble / _from (for every body and block size the chunks taken in order concatenate to the body: induction on the remaining length), C08_followup_from_cache (a follow-up block is answered from the cache without consulting the application and the entry is released exactly when the served block is the last)."),
-        level_note=COMMON_BLOCK_NOTE + " The end-to-end statement over a whole transfer (client loop with size renegotiation) is decided by the suite's oracle on complete transfers, not stated as one theorem.",
+                    "C08_chunks_reassemble / _from (for every body and block size the chunks taken in order concatenate to the body: induction on the remaining length), C08_followup_from_cache (a follow-up block is answered from the cache without consulting the application and the entry is released exactly when the served block is the last), "
+                    "C08_followups_served (a whole run of follow-ups k, k+1, ... up to the one covering the end of the body, any number of them: all answered from the cache, payloads exactly the chunks of the body from offset k*size, entry released afterwards -- with C08_chunks_reassemble the client's concatenation is the body)."),
+        level_note=COMMON_BLOCK_NOTE + " The whole-transfer theorem is stated at one block size; a transfer in which the client changes the size mid-way is decided by the suite's oracle on complete transfers.",
         modelled="src/block_handler/mod.rs intercept_request, intercept_response, maybe_handle_request_block2, maybe_serve_cached_response, packet_clone_limited, negotiate_block_size_if_necessary",
     ),
     "C09": dict(
@@ -30,7 +31,8 @@ PROPS = {
               "the final block delivered twice (known finding D11); 300 (thorough 3000) requests larger than the budget without Block1; verdict: every non-final block answered 2.31 with Block1 echoing the offset and a size <= the client's, application not reached; final block reaches the application exactly once with exactly the body; 4.13 with a power-of-two size hint; "
               "class 1 plain / 2 after an abandoned upload / 3 too large; distinct = distinct input"),
         level_text=("Theorems: C09_splice_extends_prefix (whatever the buffer holds beyond it: once the buffer agrees with the body up to a block's offset, splicing the block in extends the agreement -- so in-order delivery with repeats reconstructs the prefix), C09_final_block_body (the body handed over at the final block is exactly the body sent), "
-                    "C09_block_answer (2.31 Continue + negotiated Block1 without reaching the application for non-final blocks; hand-over with Block1 on the response for the final one), C09_too_large (4.13 with Block1 num 0, more set). Known finding KF_dup_final (C09_KF_dup_final_refuted)."),
+                    "C09_block_answer (2.31 Continue + negotiated Block1 without reaching the application for non-final blocks; hand-over with Block1 on the response for the final one), C09_too_large (4.13 with Block1 num 0, more set), C09_upload_delivers_body (the buffer handling over a whole in-order upload at any block size, on top of ANY stale buffer, yields exactly the body) and "
+                    "C09_upload_run (the same on handle_block1 itself with its size negotiation and response building: a run of in-order block requests from block 0 either reports one of the documented errors or answers every block but the last with Continue and hands over a request whose payload is exactly the body, buffer released). Known finding KF_dup_final (C09_KF_dup_final_refuted)."),
         level_note=COMMON_BLOCK_NOTE,
         modelled="src/block_handler/mod.rs maybe_handle_request_block1, extending_splice, negotiate_block_size_if_necessary",
     ),
@@ -39,8 +41,9 @@ PROPS = {
         design_ref="DESIGN.md section 5, C10",
         rule=("suite 100: 2500 (thorough 60000) first exchanges and short transfers with the budget aimed at bands around overhead + 12 + 2^k, overhead + 28 .. +35, 1277..1280 and random values; overhead varied through token length 0..8, path length 0..100, Uri-Query options and four application option sets; client szx 0..7 or none; uploads with szx 0..6; "
               "verdict: inside the property's domain (overhead + 28 <= M <= 1280, no Block2 set by the application) every handler-produced message encodes within M, every chosen size is a power of two in 16..1024 and not above the client's; outside only 'no panic'; class 1 in / 2 outside the domain; distinct = distinct input"),
-        level_text=("Theorem C10_chosen_size: for every budget with overhead + 28 <= M <= 1280, whenever negotiate returns a block it has size 2^(k+4), k <= 6, at most M - overhead - 12 (room for the block plus the 12-byte block-option allowance), never above the client's size, and exactly the client's when that fits with 32 bytes to spare."),
-        level_note=COMMON_BLOCK_NOTE + " That the 12-byte allowance really covers the Block1/Block2 options and payload marker the handler adds (the insertion lemma on the wire image) is decided by the suite's length oracle on every produced message, not yet proved.",
+        level_text=("Theorem C10_chosen_size: for every budget with overhead + 28 <= M <= 1280, whenever negotiate returns a block it has size 2^(k+4), k <= 6, at most M - overhead - 12 (room for the block plus the 12-byte block-option allowance), never above the client's size, and exactly the client's when that fits with 32 bytes to spare. C10_overhead_measured (the size the handler measures is the RFC wire length), C10_insertion (inserting one option with number <= 268 and a value of <= 12 bytes into any ascending option sequence "
+                    "lengthens the wire image by at most 2 + its length: the successor's delta only shrinks), C10_fragment_fits (for every well-formed application response without Block2 and every budget in the domain, the first fragment the handler builds -- options + Block2 + marker + chunk -- has wire length <= M and payload <= the chosen size)."),
+        level_note=COMMON_BLOCK_NOTE + " C10_fragment_fits is proved for the first fragment of a response (intercept_response); follow-up fragments from the cache and Block1 answers are decided by the suite's length oracle on every produced message.",
         modelled="src/block_handler/mod.rs negotiate_block_size_if_necessary, compute_message_size_hack; src/block_handler/block_value.rs BlockValue::new",
     ),
     "C11": dict(
@@ -127,9 +130,10 @@ PROPS = {
         level_text=("Theorems: C15_round (a round on an observed resource adds exactly one to the sequence, stamps every observer with the message id, counts only confirmable rounds, and keeps exactly the observers whose count is <= the limit), "
                     "C15_ack / C15_ack_exact (only the observer with the acknowledging endpoint, only when its pending id matches, is reset), C15_count_bounded and C15_no_counter_overflow (for every history with limits 0..255, of any length, the counter stays <= 255 between rounds, "
                     "its increment never overflows, and the only reachable panic is site 40), C15_notification (create_notification is exactly version 1, CON/NON, 2.05, the given id, token, payload and Observe = minimal uint of the sequence). "
+                    "C15_projection / C15_projection_run (projected on one (endpoint, path) pair the registry is a four-field automaton -- absent, or token, confirmable notifications since the last acknowledgement or registration, pending id -- for every reachable state and every history: "
+                    "the observer is dropped exactly when that count exceeds the limit, non-confirmable rounds never count, only a matching acknowledgement from the same endpoint resets it). "
                     "Known finding KF_seq_wrap (C15_KF_seq_wrap_refuted): the u32 sequence cannot increase past 2^32-1."),
-        level_note=("Model tied by differential execution with full-state comparison (hooks). 'Dropped exactly when the count of confirmable notifications since the last acknowledgement or registration exceeds the limit' is proved per round on the counter (C15_round) and checked against the history-based relational reference at run time; "
-                    "the equivalence of counter and history count is not proved as a separate theorem."),
+        level_note=("Model tied by differential execution with full-state comparison (hooks). 'Dropped exactly when the count of confirmable notifications since the last acknowledgement or registration exceeds the limit' is proved per round on the counter (C15_round), as a per-pair automaton over whole histories (C15_projection_run), and checked against the history-based relational reference at run time."),
         modelled="src/observe.rs resource_changed, acknowledge, create_notification; src/packet.rs set_observe_value",
     ),
     "C19": dict(
@@ -194,10 +198,10 @@ PROPS = {
               "non-trivial = well-formed call sequence (ops_wf); class by the widest option field: 1 no options / 2 short / 3 one-byte extension / 4 two-byte extension; distinct = distinct canonical input"),
         level_text=("Theorems over all packet states and all call sequences (no size bound): C01_encode_is_wire_image (to_bytes of every well-formed state is exactly the RFC 7252 section 3 image "
                     "of the message it denotes), C01_decode_inverts_wire_image (from_bytes inverts the image of every abstract message: versions 0-3, token 0-8, any ascending options up to 65804-byte values, payload), "
-                    "C01_roundtrip, C01_api_states_wf / C01_api_roundtrip (every sequence of public API calls, in any order, builds such a state and round-trips). "
+                    "C01_roundtrip, C01_api_states_wf / C01_api_roundtrip (every sequence of public API calls, in any order, builds such a state and round-trips), C01_api_denotes_spec (that state denotes exactly the last-writer-wins reading of the call sequence: header fields by their last setter, options as the insertion-ordered multiset with set_option replacing and clear_option removing, stably sorted by number). "
                     "The 13/269/65535 thresholds are case splits closed by lia; the index-based decoder is connected through a proved refinement to a suffix parser."),
         level_note=("The Gallina models of to_bytes_internal/from_bytes/the option API are hand-written; faithfulness is checked each run by differential execution (dev and release builds; udp and no-default-features in the thorough tier). "
-                    "The theorem that the state equals a last-writer-wins specification of the call sequence (spec_run) is checked by the run-time oracle on every case, not proved."),
+                    "The last-writer-wins specification (spec_run) is both proved equal to the model (C01_api_denotes_spec) and evaluated by the run-time oracle against the implementation on every case."),
         modelled="src/packet.rs Packet::{new,set_token,add_option,set_option,clear_option,clear_all_options,to_bytes_internal,from_bytes}; src/header.rs bit-field setters, MessageClass<->u8",
     ),
     "C02": dict(
